@@ -125,6 +125,22 @@ def _tensor(c, seed):
         for k, i in enumerate(c['pos']):
             Y[k][0, i, 0] = 1.0
         return Y
+    if c['kind'] == 'sine':
+        # sin(w (i_1 + ... + i_d) + phase): TT-ranks 2 and QTT-ranks 2 on every bond - caps above 2 never bind, in-mode unfoldings are larger than 2
+        w, d = 0.37, len(shape)
+        Y = []
+        for k, n in enumerate(shape):
+            x = w * np.arange(n) + (0.2 if k == 0 else 0.0)
+            R = np.array([[np.cos(x), -np.sin(x)], [np.sin(x), np.cos(x)]]).transpose(0, 2, 1)       # (2, n, 2)
+            if d == 1:
+                Y.append(np.sin(x).reshape(1, n, 1))
+            elif k == 0:
+                Y.append(np.stack([np.sin(x), np.cos(x)], axis=1).reshape(1, n, 2))
+            elif k == d - 1:
+                Y.append(R[:, :, :1].copy())
+            else:
+                Y.append(R.copy())
+        return Y
     return space.tt(shape, rk, c['kind'], seed, tag=17)
 
 
@@ -318,6 +334,10 @@ def strata(tier, seed):
                     cs.append(dict(shape=[n] * d, ranks=rk, kind=kind, caps=[1, 2, 100, 1e12], seed=seed))
             for pos in itertools.product(range(n), repeat=d):
                 cs.append(dict(shape=[n] * d, ranks=[1] + [2] * (d - 1) + [1], kind='delta', pos=list(pos), caps=[1, 100], seed=seed))
+    for d, q in ((1, 3), (1, 4), (2, 3), (3, 2), (2, 4), (3, 3)):
+        n = 2 ** q
+        if d * q <= (8 if tier == 'quick' else 12):
+            cs.append(dict(shape=[n] * d, ranks=[1] + [2] * (d - 1) + [1], kind='sine', caps=[2, 3, 4, 5, 100], seed=seed))
     for d, q in ((1, 4), (1, 5), (2, 4), (2, 5)):
         n = 2 ** q
         for rk in ([[1, 1]] if d == 1 else [[1, 1, 1], [1, 3, 1], [1, 7, 1]]):
